@@ -105,11 +105,16 @@ def step (st : St) (args : List String) : St × String × String :=
         | some sub => statusOf sub
         | none => "?")
   | ["drain", id] => let r := drainObs s (decStr id); dup ({ s := r.1 }, r.2)
-  | ["poll", id] => dup ({ s := Sub.poll s (decStr id) }, "ok")
-  | ["eof", id] => dup ({ s := Sub.eof s (decStr id) }, "ok")
-  | ["gate", id, g] => dup ({ s := Sub.setGate s (decStr id) (g == "shut") }, "ok")
-  | ["expire", id] => dup ({ s := Sub.expire s (decStr id) }, "ok")
-  | ["view", _] => dup (st, "ok")
+  | [op, id] =>
+      if (findSub s (decStr id)).isNone then dup (st, "no-such-subscriber")
+      else if op == "poll" then dup ({ s := Sub.poll s (decStr id) }, "ok")
+      else if op == "eof" then dup ({ s := Sub.eof s (decStr id) }, "ok")
+      else if op == "expire" then dup ({ s := Sub.expire s (decStr id) }, "ok")
+      else if op == "view" then dup (st, "ok")
+      else dup (st, "bad-op")
+  | ["gate", id, g] =>
+      if (findSub s (decStr id)).isNone then dup (st, "no-such-subscriber")
+      else dup ({ s := Sub.setGate s (decStr id) (g == "shut") }, "ok")
   | _ => dup (st, "bad-op")
 
 end Driver.SU
